@@ -659,7 +659,10 @@ namespace xsimd
         template <size_t N, class A>
         XSIMD_INLINE batch<uint16_t, A> rotate_left(batch<uint16_t, A> const& self, requires_arch<avx2>) noexcept
         {
-            return _mm256_alignr_epi8(self, self, N);
+            // _mm256_alignr_epi8 works on each 128-bit lane separately: pair every lane with the other one
+            constexpr size_t bytes = 2 * N;
+            __m256i swapped = _mm256_permute2x128_si256(self, self, 0x01);
+            return bytes < 16 ? _mm256_alignr_epi8(swapped, self, bytes % 16) : _mm256_alignr_epi8(self, swapped, bytes % 16);
         }
         template <size_t N, class A>
         XSIMD_INLINE batch<int16_t, A> rotate_left(batch<int16_t, A> const& self, requires_arch<avx2>) noexcept
